@@ -450,3 +450,95 @@ func specFor(argv []string) (name string, c specCmd, ok bool) {
 	}
 	return "", specCmd{}, false
 }
+
+// replayWalk follows the method path of w again, drawing fresh arguments from g.
+func replayWalk(t *rapid.T, b Builder, w walkResult, g argGen) (res walkResult) {
+	res.Root = w.Root
+	defer func() {
+		if r := recover(); r != nil {
+			if isRapidControl(r) {
+				panic(r)
+			}
+			res.Panic = fmt.Sprint(r)
+		}
+	}()
+	cur := reflect.ValueOf(b)
+	for _, s := range w.Steps {
+		m := cur.MethodByName(s.Method)
+		mt := m.Type()
+		var in []reflect.Value
+		st := wStep{Method: s.Method}
+		for i := 0; i < mt.NumIn(); i++ {
+			v, a := drawArg(t, g, w.Root, s.Method, mt.In(i), mt.IsVariadic() && i == mt.NumIn()-1, i)
+			in = append(in, v)
+			st.Args = append(st.Args, a)
+		}
+		res.Steps = append(res.Steps, st)
+		var outs []reflect.Value
+		if mt.IsVariadic() {
+			outs = m.CallSlice(in)
+		} else {
+			outs = m.Call(in)
+		}
+		cur = outs[0]
+		switch cur.Type() {
+		case tCompleted:
+			c := cur.Interface().(Completed)
+			res.Final, res.Completed, res.Argv, res.CF, res.KS = "Build", c, append([]string(nil), c.cs.s...), c.cf, c.ks
+			return
+		case tCacheable:
+			c := cur.Interface().(Cacheable)
+			res.Final, res.Cacheable, res.Argv, res.CF, res.KS = "Cache", c, append([]string(nil), c.cs.s...), c.cf, c.ks
+			return
+		}
+	}
+	return
+}
+
+// cacheRoots lists the root builders from which some path reaches Cache().
+func cacheRoots() []string {
+	var out []string
+	seenType := map[reflect.Type]bool{}
+	var reach func(t reflect.Type, depth int) bool
+	memo := map[reflect.Type]bool{}
+	reach = func(t reflect.Type, depth int) bool {
+		if v, ok := memo[t]; ok {
+			return v
+		}
+		if seenType[t] || depth > 30 {
+			return false
+		}
+		seenType[t] = true
+		defer func() { seenType[t] = false }()
+		for i := 0; i < t.NumMethod(); i++ {
+			m := t.Method(i)
+			if m.Name == "Cache" && m.Type.NumOut() == 1 && m.Type.Out(0) == tCacheable {
+				memo[t] = true
+				return true
+			}
+		}
+		for i := 0; i < t.NumMethod(); i++ {
+			m := t.Method(i)
+			if m.Type.NumOut() == 1 && m.Type.Out(0).ConvertibleTo(tIncomplete) && m.Type.Out(0).Kind() == reflect.Struct && m.Type.Out(0) != t {
+				if reach(m.Type.Out(0), depth+1) {
+					memo[t] = true
+					return true
+				}
+			}
+		}
+		memo[t] = false
+		return false
+	}
+	bt := reflect.TypeOf(Builder{})
+	for i := 0; i < bt.NumMethod(); i++ {
+		m := bt.Method(i)
+		if m.Name == "Arbitrary" || m.Type.NumOut() != 1 {
+			continue
+		}
+		if reach(m.Type.Out(0), 0) {
+			out = append(out, m.Name)
+		}
+	}
+	sort.Strings(out)
+	return out
+}
